@@ -11,7 +11,9 @@ import (
 	"fmt"
 	"go/ast"
 	"go/token"
+	"go/types"
 	"sort"
+	"strings"
 	"sync"
 	"time"
 
@@ -237,6 +239,7 @@ func paramsStream(meta *common.Meta, c *corpus, infos []*linter.CheckerInfo) {
 		extraFiles = []*fw.File{c.files[0], c.files[len(c.files)/3], c.files[2*len(c.files)/3], c.files[len(c.files)-1]}
 	}
 	for _, info := range infos {
+		ctorContextProbe(meta, c, info, "registered parameter values")
 		var names []string
 		for k := range info.Params {
 			names = append(names, k)
@@ -272,6 +275,7 @@ func paramsStream(meta *common.Meta, c *corpus, infos []*linter.CheckerInfo) {
 					}()
 					chk, err = linter.NewChecker(ctx, info)
 				}()
+				ctorContextProbe(meta, c, info, fmt.Sprintf("%s=%v", pn, val))
 				stage := "the constructor"
 				reg1 := fw.SnapRegistry()
 				if err != nil {
@@ -316,6 +320,38 @@ func paramsStream(meta *common.Meta, c *corpus, infos []*linter.CheckerInfo) {
 	meta.Distribution["param_variant_fingerprinted_checks"] = fpChecks
 	meta.Distribution["param_variants_tried"] = variants
 	meta.Distribution["param_variants_rejected_by_constructor"] = ctorErrs
+}
+
+// ctorContextProbe: a CONSTRUCTOR receives the shared context too. It may set the documented ctx.Require bits and nothing
+// else: every other field of *linter.Context (deep rendering of all fields, exported or not) must be what the integrator
+// configured. The probe context is configured for a foreign target (GOARCH=386 sizes, an old Go version) so that a
+// constructor that "normalises" the context to its own idea of the platform shows.
+func ctorContextProbe(meta *common.Meta, c *corpus, info *linter.CheckerInfo, variant string) {
+	ctx := linter.NewContext(c.fset, types.SizesFor("gc", "386"))
+	before := fw.DeepCtx(ctx)
+	func() {
+		defer func() { _ = recover() }()
+		_, _ = linter.NewChecker(ctx, info)
+	}()
+	after := fw.DeepCtx(ctx)
+	var diff []string
+	for i := range before {
+		if i < len(after) && before[i] != after[i] && !strings.HasPrefix(before[i], "Require=") {
+			diff = append(diff, clipStr(before[i], 200)+"  ->  "+clipStr(after[i], 200))
+		}
+	}
+	if len(diff) > 0 {
+		meta.Fail("C05/"+info.Name+"/constructor-writes-context", fmt.Sprintf("%s: the constructor (%s) changes the shared linter.Context beyond the Require bits", info.Name, variant),
+			map[string]interface{}{"checker": info.Name, "variant": variant, "fields": diff,
+				"replay": "ctx := linter.NewContext(fset, types.SizesFor(\"gc\", \"386\")); render every field; linter.NewChecker(ctx, info) with " + variant + "; render again"})
+	}
+}
+
+func clipStr(s string, n int) string {
+	if len(s) > n {
+		return s[:n] + "..."
+	}
+	return s
 }
 
 var paramDefaults map[string]map[string]interface{}
@@ -506,6 +542,7 @@ func Run(tier string, seed int64, outDir string) *common.Meta {
 			}
 		}
 		selectionStream(meta, cs[0], infos, append(append([]*fw.File(nil), cs[0].files...), cr.files...), full)
+		selectionForeign(meta, cs[0], infos, cs[0].files)
 		meta.Distribution["renamed_import_packages"] = len(cr.pkgs)
 		meta.Distribution["renamed_import_packages_with_type_errors"] = nErr
 		meta.Distribution["selection_s"] = time.Since(t3).Seconds()
